@@ -301,7 +301,7 @@ def deps(fb, body):
         proj = "".join(p for p in (pl.get("p") or []) if p != "*" and not p.startswith("["))
         out = set()
         for leaf in dep[l]:
-            if proj and not leaf.startswith(("const:", "call:")):
+            if proj and not leaf.startswith(("const:", "call:")) and leaf.count(".") < 5 and not leaf.endswith(proj):
                 out.add(leaf + proj)
             else:
                 out.add(leaf)
@@ -390,7 +390,7 @@ def operand_leaves(fb, body, op):
         proj = "".join(p for p in (pl.get("p") or []) if p != "*" and not p.startswith("["))
         out = set()
         for leaf in d[pl["l"]]:
-            out.add(leaf + proj if proj and not leaf.startswith(("const:", "call:")) else leaf)
+            out.add(leaf + proj if proj and not leaf.startswith(("const:", "call:")) and leaf.count(".") < 5 and not leaf.endswith(proj) else leaf)
         return out
     if k == "const":
         v = op.get("v", "")
